@@ -85,6 +85,8 @@ def run(tier, seed, t0):
                         ["--mode", "keys", "--lambda", lam, "--seed", seed, "--shard", sh, "--coefs", 256 if thorough else 64, "--threads", 8], timeout=3600, weight=8))
     jobs.append(Job("keys-custom", "drv_c07", "optim", "nayuki-avx", ["--mode", "keys", "--lambda", 0, "--seed", seed, "--threads", 8], timeout=3600, weight=8))
     jobs.append(Job("keys-custom-debug", "drv_c07", "debug", "spqlios-fma", ["--mode", "keys", "--lambda", 0, "--seed", seed + 1, "--threads", 8], timeout=3600, weight=8))
+    for i, al in enumerate([2.0 ** -15, 2.44e-5] + ([2.0 ** -20, 2.0 ** -25] if thorough else [])):
+        jobs.append(Job("ksrows-%d" % i, "drv_c07", "optim", "spqlios-fma", ["--mode", "ksrows", "--n_in", 65536 if thorough else 16384, "--n_out", 8, "--alpha", al, "--seed", seed, "--shard", i], timeout=3600))
     jobs.append(Job("seeding", "drv_c07", "optim", "spqlios-fma", ["--mode", "seeding", "--seed", seed], timeout=1800))
     jobs.append(Job("seeding-fftw", "drv_c07", "optim", "fftw", ["--mode", "seeding", "--seed", seed + 1], timeout=1800))
 
@@ -96,7 +98,7 @@ def run(tier, seed, t0):
             for e in r.by_type("stat"):
                 st = e["stat"]
                 if st.get("kind") == "noise":
-                    key = st["cell"] if ":seed" in st["cell"] or st["cell"].startswith("fresh-tlwe") else st["cell"]
+                    key = st["cell"] + (":alpha=2^%.2f" % math.log2(st["alpha"]) if st["cell"].startswith("ks-key") else "")
                     key = "%s|%s" % (r.job.backend if st["cell"].startswith("fresh-tlwe") else "-", key)
                     a = pooled.get(key)
                     if a is None:
@@ -136,6 +138,13 @@ def run(tier, seed, t0):
                     problems.append("row-noise-too-small(row %d)" % st["min_row"])
                 if st["max_row_second_moment"] / v_model > hi_r:
                     problems.append("row-noise-too-large(row %d)" % st["max_row"])
+            if st.get("group_sum_second_moment") is not None and st.get("rows_per_source_coefficient"):
+                # fresh noise per row: the sum of the B rows of one source coefficient has variance B sigma^2
+                v_model, _ = trunc_moments(st["alpha"] * 4294967296.0)
+                ratio = st["group_sum_second_moment"] / (st["rows_per_source_coefficient"] * v_model)
+                info["group_sum_variance_over_B_sigma2"] = ratio
+                if ratio < 0.25 or ratio > 4.0:
+                    problems.append("rows-not-independent")
             if "sum_err_units" in st:
                 info["recentred_sum_units(informational)"] = st["sum_err_units"]
             table[key] = {k: (round(v, 6) if isinstance(v, float) else v) for k, v in info.items()}
